@@ -28,6 +28,8 @@ ENGINES = {  # name -> number in Model/Engines.v
     "sink5": 32,
     "inb3": 33,
     "inb5": 34,
+    "inb3b": 46,
+    "inb5b": 47,
     "cli3": 39,
     "cli5": 40,
     "limiter": 35,
